@@ -260,6 +260,74 @@ func perms(n, k int, f func([]int)) {
 	rec(nil)
 }
 
+// ---- Join: a joined lens holds no state between (or during) its calls ----------
+
+type reOut struct {
+	Pre  int8
+	A    reIn
+	Post int8
+}
+
+type reIn struct {
+	X int32
+	Y int32
+}
+
+// reLens is a user-defined Lens[reIn, int32] on Y that, while it is inside Put or Get, uses the joined lens it is
+// a part of on another structure (a callback into the same optic, as a lens over a cache or a logger might do).
+type reLens struct {
+	base   optics.Lens[reIn, int32]
+	joined *optics.Lens[reOut, int32]
+	other  *reOut
+	busy   bool
+}
+
+func (l *reLens) Put(s *reIn, v int32) *reIn {
+	if !l.busy {
+		l.busy = true
+		(*l.joined).Put(l.other, 77)
+		l.busy = false
+	}
+	return l.base.Put(s, v)
+}
+
+func (l *reLens) Get(s *reIn) int32 {
+	if !l.busy {
+		l.busy = true
+		(*l.joined).Get(l.other)
+		l.busy = false
+	}
+	return l.base.Get(s)
+}
+
+func joinReentrant(c *Ctx) {
+	fill := func(p *reOut, k int) {
+		*p = reOut{Pre: int8(k + 1), A: reIn{X: int32(100 + k), Y: int32(200 + k)}, Post: int8(-k - 1)}
+	}
+	for k := 0; k < 3; k++ {
+		c.R.Evaluations++
+		subj, other := newBox(fill, k), newBox(fill, (k+1)%3)
+		st, ot := twinOf(subj), twinOf(other)
+		var joined optics.Lens[reOut, int32]
+		inner := &reLens{base: optics.ForProduct1[reIn, int32]("Y"), joined: &joined, other: &other.v}
+		joined = optics.Join[reOut, reIn, int32](optics.ForProduct1[reOut, reIn]("A"), inner)
+		joined.Put(&subj.v, 5)
+		st.v.A.Y, ot.v.A.Y = 5, 77
+		if d := diff(subj, st); d != "" {
+			c.Viol("join-reentrant", "Join(A, Y).Put(s, 5) while the inner lens uses the same joined lens on another structure: s differs from the plain assignment: %s", d)
+			return
+		}
+		if d := diff(other, ot); d != "" {
+			c.Viol("join-reentrant", "Join(A, Y).Put(other, 77) made from inside the inner lens: the other structure differs from the plain assignment: %s", d)
+			return
+		}
+		if g := joined.Get(&subj.v); g != 5 {
+			c.Viol("join-reentrant", "Join(A, Y).Get(s) = %d while the inner lens reads another structure through the same joined lens, want 5", g)
+			return
+		}
+	}
+}
+
 // ---- Iso / Morphism ---------------------------------------------------------
 
 type isoS struct {
@@ -493,6 +561,27 @@ func init() {
 			l := optics.BiMap(optics.ForProduct1[conv, I16]("num"), func(a I16) string { return fmt.Sprint(int(a) - 7) }, func(b string) I16 { var n int; fmt.Sscan(b, &n); return I16(n + 7) })
 			LensBy(c, "BiMap(num, a-7 as text, text+7)", l, func(p *conv, b string) { var n int; fmt.Sscan(b, &n); p.I = I16(n + 7) }, func(p *conv) string { return fmt.Sprint(int(p.I) - 7) }, []string{"0", "-40", "31000"}, fillConv)
 		})
+		Derive(c, "BiMap with inverse functions that do not fix zero", func() {
+			// kelvin = celsius + 273: neither zero maps to zero; every value, the two zeros included, goes through the conversion
+			l := optics.BiMap(optics.ForProduct1[conv, I64]("W"), func(a I64) int { return int(a) + 273 }, func(b int) I64 { return I64(b - 273) })
+			LensBy(c, "BiMap(W, a+273, b-273)", l, func(p *conv, b int) { p.W = I64(b - 273) }, func(p *conv) int { return int(p.W) + 273 }, []int{0, 273, 5, -273}, fillConv)
+			t := optics.BiMap(optics.ForProduct1[conv, I16]("num"), func(a I16) string { return fmt.Sprint(int(a) - 7) }, func(b string) I16 { var n int; fmt.Sscan(b, &n); return I16(n + 7) })
+			LensBy(c, "BiMap(num, a-7 as text, text+7) around the zero of the field", t, func(p *conv, b string) { var n int; fmt.Sscan(b, &n); p.I = I16(n + 7) }, func(p *conv) string { return fmt.Sprint(int(p.I) - 7) }, []string{"-7", "0", "-8"}, fillConv)
+			n := optics.BiMap(optics.ForProduct1[conv, I16]("num"), func(a I16) bool { return a == 0 }, func(b bool) I16 {
+				if b {
+					return 0
+				}
+				return 1
+			})
+			LensBy(c, "BiMap(num, a==0, b?0:1)", n, func(p *conv, b bool) {
+				if b {
+					p.I = 0
+				} else {
+					p.I = 1
+				}
+			}, func(p *conv) bool { return p.I == 0 }, []bool{false, true}, fillConv)
+		})
+		Derive(c, "Join used re-entrantly", func() { joinReentrant(c) })
 		Derive(c, "Getter / Setter", func() {
 			g := optics.Getter(optics.ForProduct1[conv, I16]("num"), func(a I16) string { return fmt.Sprint(a) })
 			st := optics.Setter(optics.ForProduct1[conv, I16]("num"), func(b string) I16 { return I16(len(b)) })
